@@ -710,7 +710,14 @@ fn c18(toks: &[&str]) -> String {
                 let (i, l) = idx_len(arg);
                 let pts = req.pool.get(i).unwrap_or(&empty);
                 let want = fresh(req.mode, pts, l);
-                let ok = if kind == "o" {
+                // a CLONE of the buffers as they are now (whatever the earlier operations left in them) is as good as the buffers
+                // (seed C18-s: a hand-written Clone whose scratch vectors come out with unequal lengths)
+                let clone_ok = {
+                    let mut cl = bufs.clone();
+                    let c = Curve::new(req.mode, pts, l, &mut cl);
+                    same_curve(c.path(), c.lengths(), &want)
+                };
+                let ok = clone_ok && if kind == "o" {
                     let c = Curve::new(req.mode, pts, l, &mut bufs);
                     let back = c.as_borrowed_curve().to_owned_curve();
                     // bit-wise comparison (a NaN vertex, findings F11/F13, is not `==` to itself)
